@@ -310,10 +310,27 @@ pub fn cancel(rng: &mut Rng) -> Case {
     }
     cfg.receive_max = if rng.chance(2, 3) { Some(rng.range(1, 6) as u16) } else { None };
     cfg.all_reasons = true;
+    let sized = rng.chance(1, 4);
+    if sized {
+        // the server limits the packet size: refusals of requests whose caller is already gone
+        cfg.max_packet = Some(rng.range(30, 60) as u32);
+        cfg.oversize_pct = 40;
+        cfg.big_payloads = false;
+    }
     let r = cfg.receive_max;
     let mut g = Gen::new(cfg, rng);
     g.preamble();
     for _ in 0..g.cfg.steps {
+        if sized && g.rng.chance(1, 6) {
+            // submitted (first poll), abandoned before the context looks at it
+            let id = g.next_op_id();
+            let kind = g.rng.weighted(&[2, 2, 2, 1, 1, 0]);
+            let spec = g.new_op_spec(kind, id);
+            let handle = g.rng.usize_below(g.cfg.handles.max(1));
+            g.push(Step::Op { id, handle, spec });
+            g.push(Step::Poll(TaskRef::Op(id)));
+            g.push(Step::CancelOp(id));
+        }
         g.action();
     }
     g.drain();
@@ -401,6 +418,8 @@ pub fn wake_base(rng: &mut Rng) -> Case {
     // one run in twelve: a transient read error somewhere (whatever the library makes of it,
     // it must not be left pending without a wake-up while input is readable)
     let glitch_at = if g.rng.chance(1, 12) { Some(g.rng.usize_below(g.cfg.steps.max(1))) } else { None };
+    // one run in ten: a message that fills the client's 512-byte read exactly, then silence
+    let exact_at = if g.rng.chance(1, 10) { Some(g.rng.usize_below(g.cfg.steps.max(1))) } else { None };
     for k in 0..g.cfg.steps {
         if burst_at == Some(k) {
             g.burst();
@@ -408,6 +427,10 @@ pub fn wake_base(rng: &mut Rng) -> Case {
         if glitch_at == Some(k) {
             let kind = g.rng.below(4) as u8;
             g.push(Step::Fault(FaultKind::ReadGlitch { kind }));
+        }
+        if exact_at == Some(k) {
+            g.settle();
+            g.inbound_exact_fill();
         }
         g.action();
     }
@@ -632,6 +655,34 @@ pub fn systematic_framing(thorough: bool) -> Vec<Case> {
             cases.push(sys_case(&run_prefix, &many, vec![total - 1], true, &run_tail, &config));
         }
     }
+    // ---- (3c) reads that are filled exactly (512 / 1024 bytes) by complete packets, with
+    // nothing behind them: everything in the buffer must be handled without waiting for more
+    {
+        let sized = |total: usize, qos: u8, id: u16| -> Vec<u8> {
+            // payload length such that the whole packet is `total` bytes long
+            let mut n = total.saturating_sub(16);
+            loop {
+                let p = msg(vec![b'f'; n], qos, id);
+                if p.len() == total {
+                    return p;
+                }
+                if p.len() > total {
+                    n -= p.len() - total;
+                } else {
+                    n += total - p.len();
+                }
+            }
+        };
+        for total in [512usize, 1024] {
+            let one = vec![sized(total, 1, 21)];
+            let two = vec![sized(total - 100, 0, 0), sized(100, 1, 22)];
+            let with_ping = vec![pingresp.clone(), sized(total - 2, 2, 23)];
+            for pk in [one, two, with_ping] {
+                cases.push(sys_case(&run_prefix, &pk, vec![total], false, &run_tail, &config));
+                cases.push(sys_case(&run_prefix, &pk, vec![512; total / 512], false, &run_tail, &config));
+            }
+        }
+    }
     // ---- (4) remaining lengths of 3 (and, thorough, 4) bytes
     let big = msg(vec![b'z'; 20_000], 0, 0);
     let big_stream = vec![pingresp.clone(), big.clone(), pingresp.clone()];
@@ -663,7 +714,7 @@ fn ref_len(spec: &OpSpec) -> usize {
 }
 
 /// Pads `spec` so that the reference encoding is exactly `target` bytes long, if possible.
-fn pad_to(spec: &mut OpSpec, target: usize, rng: &mut Rng) {
+pub fn pad_to(spec: &mut OpSpec, target: usize, rng: &mut Rng) {
     for _ in 0..6 {
         let cur = ref_len(spec);
         if cur == target {
